@@ -32,6 +32,17 @@ from votelib.candidate import Candidate
 from votelib.persist import simple_serialization
 
 
+def _exact(number: Number) -> Number:
+    """Return the number as an exact rational (ints and Fractions as is).
+
+    Decimal arithmetic rounds to the context precision and float arithmetic
+    to 53 bits, which moves the jump threshold for large vote totals.
+    """
+    if isinstance(number, (int, Fraction)):
+        return number
+    return Fraction(number)
+
+
 @simple_serialization
 class ThresholdOpenList:
     """A threshold-based open list evaluator.
@@ -103,10 +114,13 @@ class ThresholdOpenList:
         jump_thresholds = []
         total_votes = sum(votes.values())
         if self.jump_fraction is not None:
-            jump_thresholds.append(total_votes * self.jump_fraction)
+            jump_thresholds.append(
+                _exact(total_votes) * _exact(self.jump_fraction)
+            )
         if self.quota_function is not None:
             jump_thresholds.append(
-                self.quota_function(total_votes, n_seats) * self.quota_fraction
+                _exact(self.quota_function(total_votes, n_seats))
+                * _exact(self.quota_fraction)
             )
         if not jump_thresholds:
             return candidate_list[:n_seats]
